@@ -2,7 +2,7 @@
    A case is a history of API calls with a call-depth limit and a fault plan, together with what the
    implementation showed after EACH call: result class, the VerifIdle vector, the register vectors seen by
    every probe() during the call, and the effect log.  The case is checked against the repaired
-   algorithm ([fixed = true]), which is goja's algorithm since the fixes of F16/F17/F21/F22 landed in /repo. *)
+   model, which is goja's algorithm on the current tree (every finding of this property is repaired in /repo). *)
 From Coq Require Import List ZArith NArith Bool Arith.
 Import ListNotations.
 From Verif.C03 Require Export Model.
@@ -34,18 +34,18 @@ Definition snap_vec (x : snap) : list Z :=
 
 Record mobs := mkM { m_res : N; m_idle : list Z; m_trace : list (list Z); m_log : list nat }.
 
-Fixpoint run_hist (lim : option nat) (faults : list (nat * fkind)) (fixed : bool) (ops : list api) (s : state)
+Fixpoint run_hist (lim : option nat) (faults : list (nat * fkind)) (ops : list api) (s : state)
   : list mobs * state :=
   match ops with
   | [] => ([], s)
   | a :: r =>
-      let (s1, res) := api_exec lim faults fixed fuel0 a (set_trace [] s) in
-      let (os, sf) := run_hist lim faults fixed r s1 in
+      let (s1, res) := api_exec lim faults fuel0 a (set_trace [] s) in
+      let (os, sf) := run_hist lim faults r s1 in
       (mkM (res_code res) (idle_vec s1) (map snap_vec (rev (trace s1))) (log s1) :: os, sf)
   end.
 
-Definition run_model (fixed : bool) (c : tcase) : list mobs := fst (run_hist (c_lim c) (c_faults c) fixed (c_ops c) init).
-Definition final_state (fixed : bool) (c : tcase) : state := snd (run_hist (c_lim c) (c_faults c) fixed (c_ops c) init).
+Definition run_model (c : tcase) : list mobs := fst (run_hist (c_lim c) (c_faults c) (c_ops c) init).
+Definition final_state (c : tcase) : state := snd (run_hist (c_lim c) (c_faults c) (c_ops c) init).
 
 Definition nl_eqb (a b : list nat) : bool := if list_eq_dec Nat.eq_dec a b then true else false.
 Definition Nl_eqb (a b : list N) : bool := if list_eq_dec N.eq_dec a b then true else false.
@@ -63,29 +63,20 @@ Fixpoint obsl_eqb (a : list obs_call) (b : list mobs) : bool :=
    behave as the fresh twin that replayed only the completed effects *)
 Definition check_run (c : tcase) (r : list mobs * state) : bool :=
   obsl_eqb (c_obs c) (fst r) && implb (idle_full (snd r)) (c_twin c).
-Definition run_both (fixed : bool) (c : tcase) := run_hist (c_lim c) (c_faults c) fixed (c_ops c) init.
-Definition check_with (fixed : bool) (c : tcase) : bool := check_run c (run_both fixed c).
+Definition run_both (c : tcase) := run_hist (c_lim c) (c_faults c) (c_ops c) init.
+Definition check (c : tcase) : bool := check_run c (run_both c).
 
 Fixpoint mismatch_from (f : tcase -> bool) (i : N) (cs : list tcase) : list N :=
   match cs with
   | [] => []
   | c :: r => if f c then mismatch_from f (N.succ i) r else i :: mismatch_from f (N.succ i) r
   end.
-Definition mismatch_ids := mismatch_from (check_with true) 0%N.
+Definition mismatch_ids := mismatch_from check 0%N.
 
-(* verdict per case: 0 = the implementation agrees with S (the repaired algorithm); 1 = it disagrees with S and is not
-   explained by I; 100 + mask = it disagrees with S, agrees with I (goja's algorithm on the current tree, [fixed = false])
-   and I ran into the recorded deviations in mask (16: F23).  F16, F17, F21, F22 are repaired in /repo: on those I = S
-   would be the honest model, so their former deviation ids (16, 21, 22) count as unexplained. *)
-Definition has (n : nat) (l : list nat) : bool := existsb (Nat.eqb n) l.
-Definition mask_of (d : list nat) : N :=
-  if has 16 d || has 21 d || has 22 d then 0%N else if has 23 d then 16%N else 0%N.
-Definition verdict (c : tcase) : N :=
-  if check_with true c then 0%N
-  else let r := run_both false c in
-       if check_run c r then (if N.eqb (mask_of (leaked (snd r))) 0 then 1 else 100 + mask_of (leaked (snd r)))%N
-       else 1%N.
+(* verdict per case: 0 = the implementation agrees with the model (goja's algorithm on the current tree; every finding of
+   this property is repaired in /repo, so I = S); 1 = it disagrees *)
+Definition verdict (c : tcase) : N := if check c then 0%N else 1%N.
 Definition verdicts (cs : list tcase) : list N := map verdict cs.
 
 (* (S, I) *)
-Definition expected (c : tcase) := (run_model true c, idle_full (final_state true c), run_model false c, leaked (final_state false c)).
+Definition expected (c : tcase) := (run_model c, idle_full (final_state c)).
